@@ -36,6 +36,14 @@ Section Ext.
     update_b hack gra s rows vals = update_b hack get_reverse_adjustments_ref s rows vals.
   Proof. intros. unfold update_b. rewrite update_a_gra. reflexivity. Qed.
 
+  Lemma user_update_a_gra : forall s rows vals,
+    user_update_a hack gra s rows vals = user_update_a hack get_reverse_adjustments_ref s rows vals.
+  Proof. intros. unfold user_update_a. apply update_a_gra. Qed.
+
+  Lemma user_update_b_gra : forall s rows vals,
+    user_update_b hack gra s rows vals = user_update_b hack get_reverse_adjustments_ref s rows vals.
+  Proof. intros. unfold user_update_b. apply update_b_gra. Qed.
+
   Lemma add_a_gra : forall same s rows vals,
     add_a hack gra same s rows vals = add_a hack get_reverse_adjustments_ref same s rows vals.
   Proof. intros. unfold add_a. rewrite prepare_gra. reflexivity. Qed.
